@@ -2,7 +2,7 @@
   C16 — Sparse kernels equal their dense definitions.
   Property theorems only; helper lemmas live in Gama/Lemmas
   (SparseBasic, SparseCountingSort, SparseBuild, GraphAdj, Reach, RCMPerm, EnvelopeProfile,
-  EnvelopeLDL).
+  EnvelopeLDL; block-diagonal Cholesky: CovBdMulti, CovBdIff, CovBdField on top of C10's CovBd, CovAgree).
 
   Hypotheses that recur (none of them is checked by the C++, all are respected by its callers
   and by the correspondence harness):
@@ -20,6 +20,7 @@ import Gama.Lemmas.Reach
 import Gama.Lemmas.RCMPerm
 import Gama.Lemmas.EnvelopeProfile
 import Gama.Lemmas.EnvelopeLDL
+import Gama.Lemmas.CovBdField
 namespace Gama.Props.C16
 open Gama
 
@@ -358,5 +359,92 @@ example : (0 : ℚ) ≤ 0 ∧ 0 < (fun _ : ℚ => (1 : ℚ) / 2 ^ 26) (1 / ((2 ^
   norm_num
 
 end ldl
+
+/-! ## The block-diagonal Cholesky equals the dense one block by block
+
+`BlockDiagonal` (lib/gnu_gama/sparse/sbdiagonal.h) is modelled as ONE object (`Cov.BlockDiag`,
+Model/BlockDiagonal.lean: the buffer `nonz_` and the tables `begin_`, `dim_`, `width_`); `cholDec` is
+the pointer walk as coded, started at `begin(block)` for every block, with the early `return block`.
+`bd.Holds Cs tail` says that the object stores exactly the blocks `Cs` (any number, any dims, any band
+widths; `tail` = unused floats) — `add_block` establishes it (`Lemmas/CovBdBuild.lean`).  One block
+alone (`Cov.bdCholBlock`) is C10's (`Lemmas/CovBd.lean`); what is proved here is the walk over the blocks
+and the statements about the whole object. -/
+
+section blockdiag
+open Gama.Cov
+
+/-- the walk over the blocks, for EVERY scalar type (so also for the `Float` and `Rat` runs compared
+    with the C++): `cholDec` returns what the block-by-block model returns — the index of the first
+    rejected block or 0 — and leaves an object holding exactly the block-by-block results; nothing
+    outside `begin(block) … end(block)` is read or written while block `block` is factored, the blocks
+    after a rejected one and the unused floats are untouched; shapes are preserved. -/
+theorem C16_bd_choldec_walk {K : Type} [Scalar K] (tol : K) (bd : BlockDiag K) (Cs : List (CovMat K))
+    (tail : List K) (h : bd.Holds Cs tail) (hwf : ∀ C ∈ Cs, C.WF) :
+    (bd.cholDec tol).1 = (bdCholDec tol Cs).1 ∧
+    (bd.cholDec tol).2.Holds (bdCholDec tol Cs).2 tail ∧
+    List.Forall₂ Same Cs (bdCholDec tol Cs).2 :=
+  BlockDiag.cholDec_blockwise tol bd Cs tail h hwf
+
+variable {K : Type} [Field K] [LinearOrder K] [IsStrictOrderedRing K] [SqrtFn K]
+
+/-- **`BlockDiagonal::cholDec` factors every block exactly as the dense banded Cholesky of that block.**
+    Over an ordered field with `sqrt x · sqrt x = x`, `tol > 0`: the object left by `cholDec` holds blocks
+    `Fs` such that every block before the returned index (every block when 0 is returned) is the result
+    of the one-block kernel, is well formed with the shape of its `C`, has a positive diagonal,
+    reproduces `C = UᵀU` on the whole upper triangle, has no fill outside the band, and coincides entry
+    by entry with the factor of the dense code `Adj::choldec` (`CovMat::cholDec` + sqrt scaling)
+    whenever that accepts the block; every block after the returned index is untouched. -/
+theorem C16_bd_choldec_blockwise
+    (hsq : ∀ x : K, 0 < x → SqrtFn.sq x * SqrtFn.sq x = x ∧ 0 < SqrtFn.sq x)
+    (tol : K) (htol : 0 < tol) (bd : BlockDiag K) (Cs : List (CovMat K)) (tail : List K)
+    (h : bd.Holds Cs tail) (hwf : ∀ C ∈ Cs, C.WF) :
+    letI := Cov.fieldScalar K SqrtFn.sq
+    ∃ Fs : List (CovMat K), (bd.cholDec tol).2.Holds Fs tail ∧ Fs.length = Cs.length ∧
+      ∀ k (hk : k < Cs.length) (hk' : k < Fs.length),
+        (((bd.cholDec tol).1 = 0 ∨ k + 1 < (bd.cholDec tol).1) →
+          bdCholBlock tol (Cs[k]'hk) = .ok (Fs[k]'hk') ∧
+          (Fs[k]'hk').WF ∧ (Fs[k]'hk').dim = (Cs[k]'hk).dim ∧ (Fs[k]'hk').band = (Cs[k]'hk).band ∧
+          (∀ i, 1 ≤ i → i ≤ (Cs[k]'hk).dim → 0 < (Fs[k]'hk').get i i) ∧
+          (∀ i j, 1 ≤ i → i ≤ j → j ≤ (Cs[k]'hk).dim →
+            (Cs[k]'hk).get i j = ∑ r ∈ Finset.Icc 1 i, (Fs[k]'hk').get r i * (Fs[k]'hk').get r j) ∧
+          (∀ i j, i ≤ j → j > i + (Cs[k]'hk).band → (Fs[k]'hk').get i j = 0) ∧
+          (∀ U, adjCholdec (Cs[k]'hk) = .ok U →
+            ∀ i j, 1 ≤ i → i ≤ j → j ≤ (Cs[k]'hk).dim → (Fs[k]'hk').get i j = U.get i j)) ∧
+        ((bd.cholDec tol).1 ≠ 0 → (bd.cholDec tol).1 < k + 1 → Fs[k]'hk' = Cs[k]'hk) :=
+  bd_choldec_blockwise hsq tol htol bd Cs tail h hwf
+
+/-- **the return value**: 0 iff every block has a Cholesky factor all of whose squared pivots reach the
+    tolerance; `b ≠ 0` iff `b` is the FIRST block whose exact Cholesky pivots do not all reach the
+    tolerance (the block has no factor with positive diagonal at all, or its unique factor has a
+    squared pivot `< tol`) — all earlier blocks do. -/
+theorem C16_bd_rejects_iff
+    (hsq : ∀ x : K, 0 < x → SqrtFn.sq x * SqrtFn.sq x = x ∧ 0 < SqrtFn.sq x)
+    (tol : K) (htol : 0 < tol) (bd : BlockDiag K) (Cs : List (CovMat K)) (tail : List K)
+    (h : bd.Holds Cs tail) (hwf : ∀ C ∈ Cs, C.WF) :
+    letI := Cov.fieldScalar K SqrtFn.sq
+    ((bd.cholDec tol).1 = 0 ↔
+      ∀ k (hk : k < Cs.length), ∃ U, IsCholOf (Cs[k]'hk) U ∧
+        ∀ i, 1 ≤ i → i ≤ (Cs[k]'hk).dim → tol ≤ U i i * U i i) ∧
+    (∀ b, b ≠ 0 →
+      ((bd.cholDec tol).1 = b ↔
+        ∃ (hlt : b - 1 < Cs.length),
+          (∀ k (hk : k < b - 1), ∃ U, IsCholOf (Cs[k]'(by omega)) U ∧
+            ∀ i, 1 ≤ i → i ≤ (Cs[k]'(by omega)).dim → tol ≤ U i i * U i i) ∧
+          (∀ U, IsCholOf (Cs[b - 1]'hlt) U →
+            ∃ i, 1 ≤ i ∧ i ≤ (Cs[b - 1]'hlt).dim ∧ U i i * U i i < tol))) :=
+  ⟨bd_ret_zero_iff hsq tol htol bd Cs tail h hwf,
+   fun b hb => bd_rejects_iff hsq tol htol bd Cs tail h hwf b hb⟩
+
+/-- non-vacuity: the object `BlockDiagonal(2,4)` with the blocks `[9]` and `[[4,2],[2,5]]` over ℝ
+    (`Real.sqrt`) satisfies the hypotheses; with `tol = 1/100` `cholDec` returns 0, with `tol = 5` it
+    returns 2 (the first block's pivot 9 reaches 5, the second block's first pivot 4 does not). -/
+example : exBd.Holds exCs [] ∧ (∀ C ∈ exCs, C.WF) ∧
+    (∀ x : ℝ, 0 < x → Real.sqrt x * Real.sqrt x = x ∧ 0 < Real.sqrt x) ∧
+    (letI := Cov.fieldScalar ℝ Real.sqrt; (exBd.cholDec (1 / 100 : ℝ)).1 = 0) ∧
+    (letI := Cov.fieldScalar ℝ Real.sqrt; (exBd.cholDec (5 : ℝ)).1 = 2) :=
+  ⟨exBd_holds, exCs_wf, fun x hx => ⟨Real.mul_self_sqrt hx.le, Real.sqrt_pos.mpr hx⟩,
+   exBd_accepts, exBd_rejects⟩
+
+end blockdiag
 
 end Gama.Props.C16
